@@ -6,6 +6,7 @@ from lib import corecase as cc
 from lib.coreprop import core_shards, run_core_shard, replay_core
 
 ID = "C05"
+REQUIRED_CLASSES = ['same_bank_contention', 'direction_wait']      # classes that must occur in every run (else harness error: vacuous generator)
 LEVEL = "exploration"
 RULE = ("case = (configuration with 2-8 ports) x (a victim port issuing a few commands + adversary ports generated from adversarial strategies: same bank continuous, same bank "
         "in bounded bursts with drain gaps, other banks continuous in one direction, all banks round-robin; adversary streams looped for > 2x the bound); non-trivial = a victim "
